@@ -1,7 +1,10 @@
 #!/venv/bin/python
 """Confirm an independently written behaviour-preserving change and keep it under /verif/refactors/<name>/.
 
-usage: tools/confirm_refactor.py <source _seed dir> <name> [--no-suite] [--props C01,C02]
+usage: tools/confirm_refactor.py <source _seed dir> <name> [--no-suite] [--props C01,C02] [--open]
+
+--open: the change alters behaviour the property statement leaves open: the demo must print PROPERTY HOLDS on both
+        trees and its BEHAVIOUR digest must differ between them.
 
 In a scratch git worktree of /repo (under /tmp, removed afterwards):
   1. demo.py on the unchanged tree must print PASS / exit 0 and a digest,
@@ -30,13 +33,14 @@ def sh(cmd, **kw):
 
 
 def digest_of(out: str) -> str:
-    m = re.findall(r"\b[0-9a-f]{32,64}\b", out)
+    m = re.findall(r"BEHAVIOUR\s+([0-9a-f]{32,64})", out) or re.findall(r"\b[0-9a-f]{32,64}\b", out)
     return m[-1] if m else ""
 
 
 def main():
     src, name = sys.argv[1], sys.argv[2]
     run_suite = "--no-suite" not in sys.argv
+    open_round = "--open" in sys.argv
     props = None
     if "--props" in sys.argv:
         props = sys.argv[sys.argv.index("--props") + 1].split(",")
@@ -56,13 +60,13 @@ def main():
     env = dict(os.environ, PYTHONPATH=f"{wt}/perception_eval", TQDM_DISABLE="1", MPLBACKEND="Agg")
     try:
         d0 = subprocess.run(["/venv/bin/python", os.path.join(dst, "demo.py")], cwd=wt, env=env, capture_output=True, text=True, timeout=1800)
-        conf["demo_unchanged"] = {"rc": d0.returncode, "digest": digest_of(d0.stdout), "tail": (d0.stdout + d0.stderr)[-200:]}
+        conf["demo_unchanged"] = {"rc": d0.returncode, "digest": digest_of(d0.stdout), "holds": "PROPERTY HOLDS" in d0.stdout, "tail": (d0.stdout + d0.stderr)[-200:]}
         a = sh(f"git -C {wt} apply {os.path.join(dst, 'patch.diff')}")
         conf["patch_applies"] = a.returncode == 0
         if a.returncode != 0:
             conf["apply_error"] = a.stderr[-300:]
         d1 = subprocess.run(["/venv/bin/python", os.path.join(dst, "demo.py")], cwd=wt, env=env, capture_output=True, text=True, timeout=1800)
-        conf["demo_changed"] = {"rc": d1.returncode, "digest": digest_of(d1.stdout), "tail": (d1.stdout + d1.stderr)[-200:]}
+        conf["demo_changed"] = {"rc": d1.returncode, "digest": digest_of(d1.stdout), "holds": "PROPERTY HOLDS" in d1.stdout, "tail": (d1.stdout + d1.stderr)[-200:]}
         conf["changed_lines"] = sh(f"git -C {wt} diff --shortstat").stdout.strip()
         if run_suite:
             t0 = time.time()
@@ -87,14 +91,15 @@ def main():
     finally:
         sh(f"git -C /repo worktree remove --force {wt}")
         shutil.rmtree(wt, ignore_errors=True)
+    same_digest = conf["demo_unchanged"]["digest"] == conf["demo_changed"]["digest"] != ""
     ok = (
         conf.get("demo_unchanged", {}).get("rc") == 0
         and conf.get("patch_applies")
         and conf.get("demo_changed", {}).get("rc") == 0
-        and conf["demo_unchanged"]["digest"] == conf["demo_changed"]["digest"] != ""
+        and (same_digest if not open_round else (not same_digest and conf["demo_changed"]["digest"] != "" and conf["demo_unchanged"]["holds"] and conf["demo_changed"]["holds"]))
         and (not run_suite or "110 passed" in conf.get("suite_with_change", ""))
     )
-    conf["confirmed_equivalent_by_demo_and_suite"] = bool(ok)
+    conf["confirmed_equivalent_by_demo_and_suite" if not open_round else "confirmed_property_holds_and_behaviour_differs_by_demo_and_suite"] = bool(ok)
     conf["alarms"] = sorted(p for p, v in conf["checks"].items() if v["rc"] == 1)
     conf["inconclusive"] = sorted(p for p, v in conf["checks"].items() if v["rc"] not in (0, 1))
     meta["confirmed"] = conf
